@@ -168,9 +168,9 @@ def mll_oracle(r):
 # ----------------------------------------------------------------------------------------------- cgio / ADF sessions
 def gen_io(rng, big=False):
     nk = rng.randint(3, 9)
-    kinds = [rng.choice(["ok", "ok", "ok", "ok", "ok", "missing", "badhdr", "garbage"]) for _ in range(nk)]
-    kinds[0] = kinds[1] = "ok"
-    oks = [i for i, k in enumerate(kinds) if k == "ok"]
+    kinds = [rng.choice(["ok", "ok", "okL", "okB", "okE", "missing", "badhdr", "garbage"]) for _ in range(nk)]
+    kinds[0] = rng.choice(["ok", "okB"]); kinds[1] = rng.choice(["ok", "okL", "okL"])
+    oks = [i for i, k in enumerate(kinds) if k.startswith("ok")]
     links = sorted({(a, b) for a in oks for b in oks if b > a and rng.random() < 0.15})
     world = "world %s %s" % (",".join(kinds), ",".join("%d>%d" % e for e in links) or "-")
     ops, slots = [], []           # mirror of iolist occupancy (True = live)
@@ -181,7 +181,7 @@ def gen_io(rng, big=False):
         if r < 0.45 and nlive < target:
             n = rng.choice(oks) if rng.random() < 0.8 else rng.randrange(nk)
             ops.append("open %d %s" % (n, rng.choice("rm")))
-            if kinds[n] == "ok":
+            if kinds[n].startswith("ok"):
                 if not slots:
                     slots = [False] * 5
                 k = slots.index(False) if False in slots else len(slots)
@@ -208,6 +208,31 @@ def gen_io(rng, big=False):
     return world, ops
 
 
+def gen_io_layout(rng):
+    """directed family: open and close a file while another stays open, then open a file of a DIFFERENT on-disk layout into
+    the freed entry and use it; the entry must not inherit anything (e.g. old_version) from its previous occupant"""
+    lay = ["ok", "okL", "okB", "okE"]
+    nk = rng.randint(3, 7)
+    kinds = [rng.choice(lay) for _ in range(nk)]
+    if "okL" not in kinds:
+        kinds[rng.randrange(1, nk)] = "okL"
+    ops, live = ["open 0 %s" % rng.choice("rm")], {1: 0}
+    for _ in range(rng.randint(3, 8)):
+        x = rng.randrange(1, nk)
+        c = min(set(range(1, 12)) - set(live))
+        ops += ["open %d %s" % (x, rng.choice("rm")), "use %d" % c]
+        live[c] = x
+        if rng.random() < 0.85:
+            ops.append("close %d" % c); del live[c]
+            z = rng.choice([i for i in range(1, nk) if kinds[i] != kinds[x]] or [x])
+            c2 = min(set(range(1, 12)) - set(live))
+            ops += ["open %d %s" % (z, rng.choice("rm")), "use %d" % c2] + ["use %d" % g for g in sorted(live)]
+            live[c2] = z
+    for c in sorted(live):
+        ops.append("close %d" % c)
+    return "world %s -" % ",".join(kinds), ops
+
+
 def io_case(exe, world, ops, work, tag, with_model=True):
     d = os.path.join(work, tag)
     shutil.rmtree(d, ignore_errors=True)
@@ -224,6 +249,9 @@ def io_oracle(r):
     if r["outcome"] != "ok" or len(r["impl"]) != len(r["ops"]):
         return [(None, {"problem": "crash or missing answers", "outcome": r["outcome"], "answers": len(r["impl"]), "ops": len(r["ops"])})], feats
     live, prev_tab, resets, maxlive, closed_once = {}, None, 0, 0, set()
+    kinds = r["world"].split()[1].split(",")
+    if len(set(k for k in kinds if k.startswith("ok"))) > 1:
+        feats.add("mixed-layouts")
     for op, l in zip(r["ops"], r["impl"]):
         ans, tab = l.split(" | ")[0].split(), " | ".join(l.split(" | ")[1:])
         t = op.split()
@@ -242,8 +270,13 @@ def io_oracle(r):
                     feats.add("adf-table-grown")
                 if len(live) == 1 and resets:
                     feats.add("reopen-after-reset")
-            elif prev_tab is not None and tab.split(" | ")[0] != prev_tab.split(" | ")[0]:
-                bad.append((None, {"problem": "a failing cgio_open_file changed the handle table", "op": op, "answer": l, "before": prev_tab}))
+            else:
+                n = int(t[1])
+                if n < len(kinds) and kinds[n].startswith("ok"):
+                    bad.append((None, {"problem": "cgio_open_file of a valid file failed (alone in a fresh process it opens)", "op": op, "answer": l,
+                                       "layout": kinds[n]}))
+                if prev_tab is not None and tab.split(" | ")[0] != prev_tab.split(" | ")[0]:
+                    bad.append((None, {"problem": "a failing cgio_open_file changed the handle table", "op": op, "answer": l, "before": prev_tab}))
         elif t[0] == "close":
             c = int(t[1])
             if c in live:
@@ -353,7 +386,7 @@ def body(ck, standalone):
                                           regression_of=c["file"], repaired_by=c.get("fixed_by"),
                                           oracle="regression corpus: the witness of a repaired defect fails again"))
     mcases = [gen_mll(ck.rng, big) for _ in range(nm)]
-    icases = [gen_io(ck.rng, big) for _ in range(ni)]
+    icases = [(gen_io_layout(ck.rng) if i % 3 == 2 else gen_io(ck.rng, big)) for i in range(ni)]
     futs = [pool.submit(mll_case, exe, s, o, c, ck.work, "b_m%d" % i, res["ok"]) for i, (s, o, c) in enumerate(mcases)]
     futs += [pool.submit(io_case, exe, w, o, ck.work, "b_i%d" % i, res["ok"]) for i, (w, o) in enumerate(icases)]
     for fu in futs:
